@@ -20,7 +20,7 @@ ASSUMPTIONS = [
 CASES = {"quick": 40000, "thorough": 1500000}
 MIN_CASES = {"quick": 8000, "thorough": 200000}
 REQUIRED_CLASSES = ["disjoint", "edge_touch", "corner_touch", "nested", "crossing", "identical", "other_region", "near_miss"]
-REQUIRED_COUNTERS = ["area_overlap_judged", "mul_judged", "is_inside_judged", "point_inside_judged", "touches_judged",
+REQUIRED_COUNTERS = ["moved_in_place_judged", "area_overlap_judged", "mul_judged", "is_inside_judged", "point_inside_judged", "touches_judged",
                      "split_judged", "grid_judged", "cuttable_true_judged", "cuttable_false_judged", "overlap_judged"]
 
 RELS = ["disjoint", "edge_touch", "corner_touch", "nested", "crossing", "identical", "other_region", "near_miss", "random"]
@@ -324,6 +324,32 @@ def check(case, ctx):
                     ctx.count("cuttable_false_judged")
                 else:
                     ctx.count("cuttable_unspecified_zone")
+
+    # ---- rectangles are mutable: moved in place (as recenter_rectangles / mirroring do) they must still agree ----------
+    sx, sy = float(A.w) * 0.5, float(A.h) * 0.25
+    a.center.x += sx
+    a.center.y += sy
+    A2 = XR.of(a)
+    ok, bb2 = ctx.call(lambda: a.bounding_box)
+    ok2, ab2 = ctx.call(a.area_overlap, b)
+    ok3, ba2 = ctx.call(b.area_overlap, a)
+    ctx.count("moved_in_place_judged")
+    if not (ok and ok2 and ok3):
+        viol("raised", f"after an in-place move: {bb2!r} {ab2!r} {ba2!r}")
+    else:
+        slack = F(1e-12) * F(max(scale, abs(a.center.x), abs(a.center.y)))
+        if not close_xr(XR(bb2.ll.x, bb2.ur.x, bb2.ll.y, bb2.ur.y), A2, slack + gz):
+            viol("stale_bounding_box", f"after moving the centre in place by ({sx},{sy}) bounding_box is {bb2}, the rectangle is {A2}")
+        c2 = A2.inter_area(B)
+        if abs(F(ab2) - c2) > ta or abs(F(ba2) - c2) > ta:
+            viol("stale_area_overlap", f"after moving the centre in place area_overlap gives {ab2!r}/{ba2!r}, exact common area {float(c2)!r}")
+    a.center = g.Point(case["a"][0], case["a"][1])
+    a.shape = g.Shape(case["a"][2] * 0.5, case["a"][3])
+    A3 = XR.of(a)
+    ok, bb3 = ctx.call(lambda: a.bounding_box)
+    if ok and not close_xr(XR(bb3.ll.x, bb3.ur.x, bb3.ll.y, bb3.ur.y), A3, F(1e-12) * F(max(scale, abs(a.center.x), abs(a.center.y))) + gz):
+        viol("stale_bounding_box", f"after assigning a new shape bounding_box is {bb3}, the rectangle is {A3}")
+    a.shape = g.Shape(case["a"][2], case["a"][3])
 
     # ---- grid ---------------------------------------------------------------------------------------
     nr, nc = case["grid"]
